@@ -61,6 +61,9 @@ def generate(ctx):
             if run is not None and run > k:
                 run = k
             gc = rng.choice([None, [0.5, 0.5], [0.25, 0.75], [0.0, 0.5], [0.5, 1.0], [0.4, 0.6], [0.3, 0.7], [0.0, 1.0]])
+            if rng.random() < 0.35:   # bounds placed strictly between two attainable counts: exact in any arithmetic
+                a, b = sorted(rng.sample(range(0, 2 * k + 1), 2))
+                gc = [max(0.0, (a - 0.5) / k), min(1.0, (b + 0.5) / k)] if rng.random() < 0.5 else [a / (2 * k) if a % 2 else max(0.0, (a - 1) / (2 * k)), min(1.0, (b | 1) / (2 * k))]
             motifs = rng.choice([None, None, [gens.random_dna(rng, rng.randint(1, k))],
                                  [gens.random_dna(rng, rng.randint(1, k)) for _ in range(3)]])
             spec = dict(kind="local", cfg=dict(k=k, run=run, gc=gc, motifs=motifs))
